@@ -162,7 +162,7 @@ func gcGenerate(r *Run, o gcOpts) *gcWorld {
 				m.Metadata.Set("extra", fmt.Sprintf("e%d", t.Int(100)))
 			}
 			if t.Chance(1, 3) {
-				m.Metadata.Set("flag", "") // a key whose value is the empty string is still a key
+				m.Metadata["flag"] = "" // a key whose value is the empty string is still a key (written directly: Set is code under test)
 			}
 			pb.msgs = append(pb.msgs, m)
 		}
